@@ -139,7 +139,12 @@ func (cfgScenario) Build(cfg string) ([]func(), func(*vsched.Sched) []string) {
 	ctxKind := cfgStr(cfg, "ctx")[0]
 	open := cfgInt(cfg, "open") == 1
 	underOld := newCfgCase(name, oldV, open).call(act, ctxKind)
-	underNew := newCfgCase(name, newV, open).call(act, ctxKind)
+	// "under the new configuration": same set-up under the old one, the change applied BEFORE the call starts
+	nc := newCfgCase(name, oldV, open)
+	ncConf := nc.conf
+	applyChange(&ncConf, name, newV)
+	nc.c.SetConfigThreadSafe(ncConf)
+	underNew := nc.call(act, ctxKind)
 	cc := newCfgCase(name, oldV, open)
 	newConf := cc.conf
 	applyChange(&newConf, name, newV)
